@@ -29,7 +29,10 @@ def num(v, maxden, tol=1e-9):
     return [1, f.numerator, f.denominator]
 
 
-def call(pts, ts, unit=1.0, day=(2020, 6, 15), coarse=False):
+TINY = 2.0 ** -14        # about 0.06 mm: the property does not depend on the unit of length (power of two: exact in floating point)
+
+
+def call(pts, ts, unit=1.0, day=(2020, 6, 15), coarse=False, scale=1.0):
     """ts are in TICKS of `unit' seconds (1 s, or 1 ms); speeds are reported per tick.  With a 2020 date a 1 ms gap is known
     to the float clock only to 2e-4 (coarse = only the NaN pattern is judged); around 1970 the clock is exact to 1e-8."""
     import tk
@@ -37,14 +40,15 @@ def call(pts, ts, unit=1.0, day=(2020, 6, 15), coarse=False):
     e = {"ev": "kin", "pts": [list(p) for p in pts], "ts": list(ts), "raised": False, "abs": [], "abs2": [], "abs3": [], "speed": [], "speed2": [],
          "pre": [], "post": [], "coarse": coarse, "tick_ms": int(round(unit * 1000))}
     tol = 1e-9 if unit == 1.0 else 1e-6
+    e["scale"] = "2^-14" if scale != 1.0 else "1"
     if unit == 1.0:
-        tr = tk.mk_track([p[0] for p in pts], [p[1] for p in pts], [float(k) for k in range(len(pts))], ts)
+        tr = tk.mk_track([p[0] * scale for p in pts], [p[1] * scale for p in pts], [float(k) * scale for k in range(len(pts))], ts)
     else:
         tr = tk.mk_track_ms([p[0] for p in pts], [p[1] for p in pts], [float(k) for k in range(len(pts))], [int(round(t * unit * 1000)) for t in ts], day=day)
 
     def snap():
-        return [[round(tr.getObs(k).position.getX() * 1000), round(tr.getObs(k).position.getY() * 1000),
-                 round(tr.getObs(k).position.getZ() * 1000), round(tr.getObs(k).timestamp.toAbsTime() * 1000) % 100000000] for k in range(tr.size())]
+        return [[round(tr.getObs(k).position.getX() / scale * 1000), round(tr.getObs(k).position.getY() / scale * 1000),
+                 round(tr.getObs(k).position.getZ() / scale * 1000), round(tr.getObs(k).timestamp.toAbsTime() * 1000) % 100000000] for k in range(tr.size())]
     e["pre"] = snap()
     maxdt2 = max(1, (max(ts) - min(ts)) ** 2)
     try:
@@ -62,13 +66,13 @@ def call(pts, ts, unit=1.0, day=(2020, 6, 15), coarse=False):
             tr.operate(Operator.DIFFERENTIATOR, "abs_curv", "ds")
             tr.removeAnalyticalFeature("abs_curv")
             a4 = list(computeAbsCurv(tr))
-        e["abs3"] = [num(v, 1) for v in a4]
-        e["abs"] = [num(v, 1) for v in a1]
-        e["abs2"] = [num(v, 1) for v in a2]
-        sq = lambda v: v if (isinstance(v, float) and math.isnan(v)) else (v * unit) * (v * unit)
+        e["abs3"] = [num(v / scale, 1) for v in a4]
+        e["abs"] = [num(v / scale, 1) for v in a1]
+        e["abs2"] = [num(v / scale, 1) for v in a2]
+        sq = lambda v: v if (isinstance(v, float) and math.isnan(v)) else (v * unit / scale) * (v * unit / scale)
         e["speed"] = [num(sq(v), maxdt2, tol) for v in s1]
         e["speed2"] = [num(sq(v), maxdt2, tol) for v in s2]
-        if [num(v, 1) for v in a3] != e["abs"]:
+        if [num(v / scale, 1) for v in a3] != e["abs"]:
             e["abs2"] = [[3, 0, 1]]          # the stored column differs from the returned one
         if [num(sq(v), maxdt2, tol) for v in s3] != e["speed"]:
             e["speed2"] = [[3, 0, 1]]
@@ -95,7 +99,7 @@ def job_family(args):
             ts = [0]
             for g_ in gaps:
                 ts.append(ts[-1] + g_)
-            out.append(call(pts, ts))
+            out.append(call(pts, ts, scale=TINY if (sum(gaps) + len(pts) + pts[-1][0]) % 3 == 0 else 1.0))
     return out
 
 
@@ -126,7 +130,7 @@ def job_random(args):
         ts = [0]
         for _k in range(n):
             ts.append(ts[-1] + rnd.choice([0, 0, 1, 1, 2, 3, 7, 60]))
-        out.append(call(pts, ts))
+        out.append(call(pts, ts, scale=rnd.choice([1.0, 1.0, TINY])))
     return out
 
 
